@@ -51,6 +51,25 @@ type muxRig struct {
 	feedErr  chan error
 	closed   bool
 	closedCh chan struct{}
+	// a ClientConnectionClose plugin that can be made to block (teardown in progress)
+	plugHold    bool
+	plugArrived chan struct{}
+	plugRelease chan struct{}
+}
+
+type rigClosePlugin struct{ r *muxRig }
+
+func (p rigClosePlugin) ClientConnectionClose(net.Conn) error {
+	r := p.r
+	r.mu.Lock()
+	hold := r.plugHold
+	r.plugHold = false
+	r.mu.Unlock()
+	if hold {
+		r.plugArrived <- struct{}{}
+		<-r.plugRelease
+	}
+	return nil
 }
 
 var curRig *muxRig
@@ -289,7 +308,8 @@ func classifyMuxErr(err error, reply *rigReply) string {
 // runMuxSchedule executes the events on a fresh client and returns the observable line.
 func runMuxSchedule(kinds string, evs []string) (string, error) {
 	r := &muxRig{sendGate: map[int]*rigGate{}, encGate: map[int]*rigGate{}, wrGate: map[int]*rigGate{},
-		readReq: make(chan struct{}, 1), feed: make(chan []byte), feedErr: make(chan error), closedCh: make(chan struct{})}
+		readReq: make(chan struct{}, 1), feed: make(chan []byte), feedErr: make(chan error), closedCh: make(chan struct{}),
+		plugArrived: make(chan struct{}, 1), plugRelease: make(chan struct{}, 1)}
 	rigMu.Lock()
 	curRig = r
 	rigMu.Unlock()
@@ -297,6 +317,9 @@ func runMuxSchedule(kinds string, evs []string) (string, error) {
 	opt.SerializeType = rigSerializeType
 	opt.Heartbeat = false
 	cl := client.NewClient(opt)
+	pc := client.NewPluginContainer()
+	pc.Add(rigClosePlugin{r})
+	cl.Plugins = pc
 	pushCh := make(chan *protocol.Message, 64)
 	cl.RegisterServerMessageChan(pushCh)
 	if err := cl.Connect("verifrig", "x"); err != nil {
@@ -409,6 +432,78 @@ func runMuxSchedule(kinds string, evs []string) (string, error) {
 						terminated = true // the reader tore the connection down by itself
 						break waitRead
 					}
+				}
+			}
+		case ev[0] == 'H' || ev[0] == 'K':
+			// the connection is torn down (H: the peer closed and the reader winds up; K: a local
+			// Close) and, WHILE the teardown is in progress – parked inside the ClientConnectionClose
+			// plugin – a fresh call enters send().  The teardown is one atomic step of the model
+			// ("T r<i>" / "C r<i>"): the call must fail promptly with ErrShutdown.
+			var ci int
+			fmt.Sscan(ev[1:], &ci)
+			mc := calls[ci]
+			id := idBase + ci
+			if terminated || mc.phase != 0 || (ev[0] == 'K' && cl.IsClosing()) {
+				return "", errors.New("overlapped teardown event not enabled here")
+			}
+			r.mu.Lock()
+			r.plugHold = true
+			r.mu.Unlock()
+			closeRet := make(chan struct{})
+			if ev[0] == 'H' {
+				select {
+				case r.feedErr <- io.ErrUnexpectedEOF:
+				case <-time.After(stepWait):
+					return "", errors.New("reader not reading at H")
+				}
+			} else {
+				go func() { cl.Close(); close(closeRet) }()
+			}
+			select {
+			case <-r.plugArrived:
+			case <-time.After(stepWait):
+				return "", errors.New("the connection-close plugin was not called during teardown")
+			}
+			r.gate(r.sendGate, id).release <- true
+			// does the sender get past registration although the teardown has begun?
+			select {
+			case <-r.gate(r.encGate, id).arrived:
+				r.gate(r.encGate, id).release <- true
+				if err := waitArr(r.gate(r.wrGate, id), "write"); err != nil {
+					return "", err
+				}
+				r.gate(r.wrGate, id).release <- true
+				time.Sleep(300 * time.Microsecond)
+			case <-time.After(3 * time.Millisecond):
+			}
+			mc.phase = 4
+			r.plugRelease <- struct{}{}
+			if ev[0] == 'K' {
+				select {
+				case <-closeRet:
+				case <-time.After(stepWait):
+					return "", errors.New("Close did not return")
+				}
+			}
+			deadline := time.Now().Add(stepWait)
+			for !cl.IsShutdown() {
+				if time.Now().After(deadline) {
+					return "", errors.New("reader did not terminate")
+				}
+				time.Sleep(50 * time.Microsecond)
+			}
+			terminated = true
+			// give the call time to complete; whether it did is the observation
+			for w := 0; w < 200; w++ {
+				if mc.kind == 'B' {
+					awaitRet(mc)
+					if mc.ret != nil {
+						break
+					}
+				} else if len(mc.done) > 0 {
+					break
+				} else {
+					time.Sleep(100 * time.Microsecond)
 				}
 			}
 		default:
@@ -681,7 +776,25 @@ func genMuxSchedule(r *rand.Rand, focus string) (string, []string) {
 			}
 		case x == 17:
 			if !terminated {
-				evs = append(evs, "T")
+				// plain termination, or termination overlapped with a fresh call entering send()
+				var fresh []int
+				for c := range phase {
+					if phase[c] == 0 {
+						fresh = append(fresh, c)
+					}
+				}
+				if len(fresh) > 0 && r.Intn(2) == 0 {
+					c := fresh[r.Intn(len(fresh))]
+					if closed || r.Intn(3) != 0 {
+						evs = append(evs, fmt.Sprintf("H%d", c))
+					} else {
+						evs = append(evs, fmt.Sprintf("K%d", c))
+						closed = true
+					}
+					phase[c] = 4
+				} else {
+					evs = append(evs, "T")
+				}
 				terminated = true
 			}
 		case x == 18:
